@@ -98,6 +98,8 @@ pub struct ExecReport {
     /// another, because the interleaved run blocked the simulator's OS thread
     #[serde(default)]
     pub degraded: bool,
+    #[serde(default)]
+    pub engine: String,
 }
 
 #[derive(Serialize, Deserialize, Clone, Debug)]
@@ -432,6 +434,7 @@ pub fn work(gen: &Gen, cfg: &WorkerCfg) {
                 watchdogs += 1;
             }
             rep.degraded = degraded;
+            rep.engine = if plan.engine.is_empty() { "shuttle".into() } else { plan.engine.clone() };
             rep.stratum = stratum.to_string();
             rep.i = i;
             rep.refs_computed = refs.computed - before.0;
